@@ -186,12 +186,12 @@ def seq_sweep(tier):
     return out
 
 
-def multi_consts(overlap, a, b, N=2, maxfail=1):
+def multi_consts(overlap, a, b, N=2, maxfail=1, env="async"):
     def one(i, kw):
         return {f"Api{i}": kw.get("api", "for_each"), f"Control{i}": kw.get("control", False), f"Order{i}": kw.get("order", "fwd"),
                 f"Limit{i}": kw.get("limit", 0), f"Strategy{i}": kw.get("strategy", "none"), f"K{i}": kw.get("k", 0),
                 f"Include{i}": kw.get("include", True), f"PreSig{i}": kw.get("pre", False)}
-    c = dict(N=N, MaxFail=maxfail, EnvMode="async", SignalInside=False, Overlap=overlap)
+    c = dict(N=N, MaxFail=maxfail, EnvMode=env, SignalInside=False, Overlap=overlap)
     c.update(one(1, a))
     c.update(one(2, b))
     return c
@@ -205,7 +205,8 @@ def multi_sweep(tier, overlap):
                   (dict(api="try_fold", strategy="finish"), dict(api="try_for_each", control=True))]
     out = []
     for i, (a, b) in enumerate(pairs):
-        out.append(job("MultiRun", f"multi_{'ov' if overlap else 'seq'}_{i}", multi_consts(overlap, a, b), ["Inv1", "Inv2", "FreshStart"],
+        out.append(job("MultiRun", f"multi_{'ov' if overlap else 'seq'}_{i}",
+                       multi_consts(overlap, a, b, env="async" if tier == "thorough" else "quiescent"), ["Inv1", "Inv2", "FreshStart"],
                        properties=["Frame"], view="View", workers=4, heap="6g"))
     return out
 
